@@ -3,6 +3,7 @@
 
 #include "upipe/uverif.h"
 #include "upipe/umem.h"
+#include "upipe/ubuf_mem.h"
 #include "upipe/udict.h"
 #include "upipe/udict_inline.h"
 #include "upipe/uref_std.h"
@@ -349,9 +350,12 @@ static void rsink_provide(struct rsink *s, struct urequest *req)
         case UREQUEST_UBUF_MGR: {
             const char *def = NULL;
             struct ubuf_mgr *m = E.block_mgr;
-            if (req->uref && ubase_check(uref_flow_get_def(req->uref, &def)) && def) {
-                if (!strncmp(def, "pic.", 4)) m = E.pic_mgr;
-                else if (!strncmp(def, "sound.", 6)) m = E.sound_mgr;
+            if (req->uref && ubase_check(uref_flow_get_def(req->uref, &def)) && def &&
+                (!strncmp(def, "pic.", 4) || !strncmp(def, "sound.", 6))) {
+                /* a manager built for the requested format, as uprobe_ubuf_mem does */
+                struct ubuf_mgr *fm = ubuf_mem_mgr_alloc_from_flow_def(E.pool_depth, E.pool_depth, E.umem, req->uref);
+                if (fm) { urequest_provide_ubuf_mgr(req, fm, uref_dup(req->uref)); break; }
+                m = !strncmp(def, "pic.", 4) ? E.pic_mgr : E.sound_mgr;
             }
             urequest_provide_ubuf_mgr(req, ubuf_mgr_use(m), uref_dup(req->uref));
             break;
